@@ -85,6 +85,8 @@ static void check(const Case &c) {
         if (gridPathCellsSize(c.h, c.q, &n) == E_SUCCESS && n >= 100) { COUNT("pair.long_path(>=100 cells)"); NONTRIVIAL(); }
         if (n >= 400) COUNT("pair.long_path(>=400 cells)");
         COUNT("pair");
+        if (c.arm == 100) COUNT("pair.chord_past_a_pentagon(both ends in base cells around it)");
+        if (c.arm == 101) COUNT("pair.all_pairs_within_K_of_a_pentagon");
     }
     static Counter paths("paths_validated");
     paths.n += (uint64_t)succeeded;
@@ -94,7 +96,20 @@ static int KMAX = 10;
 
 static Case draw() {
     Case c;
-    c.kind = rpick({3, 2});
+    c.kind = rpick({3, 2, 2});
+    if (c.kind == 2) {
+        // chord past a pentagon: both ends at 0.1..0.5 rad from a pentagon centre (= in the base cells around it) in generated directions, so the
+        // straight line clips the pentagon's base cell or its neighbours at every distance from the deleted wedge; hundreds of cells at res 5-7
+        c.kind = 1;
+        int res = rpick({1, 1, 2, 3, 2, 3, 2, 2, 1});
+        LatLng pc;
+        cellToLatLng(gen::pentagonAt(res, ri(0, 11)), &pc);
+        double a1 = runit() * 2 * gen::PI, a2 = a1 + (0.2 + 1.6 * runit()) * gen::PI;
+        c.h = gen::cellAt(gen::offset(pc, 0.1 + 0.4 * runit(), a1), res);
+        c.q = gen::cellAt(gen::offset(pc, 0.1 + 0.4 * runit(), a2), res);
+        c.arm = 100;
+        return c;
+    }
     int res = ri(0, 15);
     gen::GCell g = gen::cellRes(res, {2, 2, 7, 4, 1, 1, 1, 1, 1});
     c.h = g.h;
@@ -130,6 +145,54 @@ static void enumerate(const std::string &tier, int shard, int nshards, const std
                 emit(c);
             }
         }
+    // chords past every pentagon: 16 directions x 2 radii around each of the 12 pentagons, every pair of end points, res 1..5 (7 thorough):
+    // the line between two base cells around a pentagon clips the pentagon's base cell at every offset from its deleted wedge
+    for (int r = 1; r <= (th ? 7 : 5); r++) {
+        H3Index p[12];
+        getPentagons(r, p);
+        for (int i = 0; i < 12; i++) {
+            LatLng pc;
+            cellToLatLng(p[i], &pc);
+            std::vector<H3Index> ring;
+            for (int ri2 = 0; ri2 < 2; ri2++)
+                for (int a = 0; a < 16; a++) ring.push_back(gen::cellAt(gen::offset(pc, ri2 ? 0.38 : 0.2, (a + 0.31 * ri2) * gen::PI / 8), r));
+            for (size_t x = 0; x < ring.size(); x++)
+                for (size_t y = x + 1; y < ring.size(); y++) {
+                    if ((idx++ % nshards) != shard) continue;
+                    c.kind = 1; c.h = ring[x]; c.q = ring[y]; c.k = 0; c.arm = 100;
+                    emit(c);
+                    std::swap(c.h, c.q);
+                    emit(c);
+                }
+        }
+    }
+    // every ordered pair of cells within K neighbour steps of each pentagon, at one even and one odd resolution (the grid is self-similar:
+    // what happens to a path at depth d of a base cell happens at every resolution of that parity). K reaches 1.5 base cells, so that
+    // both ends can lie in two different hexagon base cells around the pentagon with the pentagon's base cell between them.
+    {
+        struct RK { int r, k; };
+        std::vector<RK> plan = th ? std::vector<RK>{{2, 9}, {3, 16}, {4, 12}, {5, 10}} : std::vector<RK>{{2, 8}, {3, 14}};
+        for (RK rk : plan) {
+            H3Index p[12];
+            getPentagons(rk.r, p);
+            for (int i = 0; i < 12; i++) {
+                int64_t n = 0;
+                maxGridDiskSize(rk.k, &n);
+                std::vector<H3Index> ball((size_t)n, 0);
+                if (gridDisk(p[i], rk.k, ball.data())) continue;
+                ball.erase(std::remove(ball.begin(), ball.end(), (H3Index)0), ball.end());
+                std::sort(ball.begin(), ball.end());
+                for (H3Index x : ball) {
+                    if ((idx++ % nshards) != shard) continue;
+                    for (H3Index y : ball) {
+                        c.kind = 1; c.h = x; c.q = y; c.k = 0; c.arm = 101;
+                        emit(c);
+                    }
+                }
+            }
+        }
+    }
+    c.kind = 0; c.arm = -1;
     for (int r = 0; r <= 15; r++) {
         H3Index p[12];
         getPentagons(r, p);
